@@ -1118,9 +1118,33 @@ def rule_r23(prog, res):
     need = {'dt_format', 'out_format', 'format'}
 
     def aliases(f):
-        return {a.attr for a in walk_no_defs(f.node)
-                if isinstance(a, ast.Attribute) and a.attr.endswith('format')
-                and unparse(a.value) == 'cls_attrs'}
+        got = {a.attr for a in walk_no_defs(f.node)
+               if isinstance(a, ast.Attribute) and a.attr.endswith('format')
+               and unparse(a.value) == 'cls_attrs'}
+        # getattr(cls_attrs, name) over a table of names
+        tables = []
+        used = {y.id for y in walk_no_defs(f.node) if isinstance(y, ast.Name)}
+        used |= {y.attr for y in walk_no_defs(f.node)
+                 if isinstance(y, ast.Attribute)}
+        for nm, v in f.module.consts.items():
+            if nm in used:
+                tables.append(v)
+        if f.cls is not None:
+            for st in f.cls.node.body:
+                if isinstance(st, ast.Assign) and any(
+                        isinstance(t, ast.Name) and t.id in used
+                        for t in st.targets):
+                    tables.append(st.value)
+        tables.append(f.node)
+        if any(isinstance(c, ast.Call) and call_name(c) == 'getattr' and
+               c.args and unparse(c.args[0]) == 'cls_attrs'
+               for c in calls_in(f.node)):
+            for t in tables:
+                for y in ast.walk(t):
+                    if isinstance(y, ast.Constant) and isinstance(
+                            y.value, str) and y.value.endswith('format'):
+                        got.add(y.value)
+        return got
     for f, what in ((w, 'writer'), (r, 'reader')):
         got = aliases(f)
         miss = sorted(need - got)
